@@ -485,6 +485,8 @@ func checkC04(R *Run) {
 		}
 	}
 
+	R.ruleBanDoorKey()
+
 	// ---- dispatch-only
 	{
 		for _, f2 := range P.Funcs {
@@ -510,6 +512,35 @@ func checkC04(R *Run) {
 			}
 		}
 		R.floor("dispatch-only", 3)
+	}
+}
+
+// ruleBanDoorKey (C04, shared with C17): the address looked up in the ban list at the door is computed the way the
+// ban writer computes it (strings.Split(remote address, ":")[0]); otherwise a banned peer walks through the gate.
+func (R *Run) ruleBanDoorKey() {
+	P := R.P
+	R.rule("ban-key-agree", "(shared with C17) the key handleNewConnection looks up in the ban list is strings.Split(remoteAddr, \":\")[0] — the form under which the disconnect handler stores bans")
+	fn := R.mustFn("(*hotline.Server).handleNewConnection")
+	if fn == nil {
+		return
+	}
+	n := 0
+	for _, ci := range callsIn(fn) {
+		c := ci.Common()
+		if !(c.IsInvoke() && c.Method.Name() == "IsBanned") || len(c.Args) == 0 {
+			continue
+		}
+		n++
+		key := P.sym(c.Args[0])
+		norm := key
+		for _, p := range fn.Params {
+			norm = strings.ReplaceAll(norm, "param:"+p.Name(), "ADDR")
+		}
+		norm = hostPartNorm(norm)
+		R.check(norm == `strings.Split(ADDR,":")[0]`, "ban-key-agree", fname(fn)+": IsBanned key", P.ipos(ci), "key = Split(remote address, \":\")[0]", "the looked-up ban key is "+key+", not strings.Split(remoteAddr, \":\")[0]: an address banned by the disconnect handler is not found at the door and is served")
+	}
+	if n == 0 {
+		R.bad("ban-key-agree", fname(fn)+": IsBanned", P.pos(fn.Pos()), "the ban list is not consulted in the login sequence")
 	}
 }
 
